@@ -293,6 +293,15 @@ Definition apply_op (o : op) (r : routine) : result :=
                                                       (SDir ACCEnterData)) r)
             | _ => Crashed
             end
+        | TACCRoutine =>
+            (* ACCRoutineTrans.validate: no CodeBlock in the routine (validate_it_can_run_on_gpu, no force);
+               apply: insert ACCRoutineDirective as first child unless a child already is one *)
+            match o_target o with
+            | TSched [] =>
+                if mem (NLeaf LCodeBlock) (rkinds r) then Refused
+                else Accepted (if mem (NS ACCRoutine) (map kind_of r) then r else SDir ACCRoutine :: r)
+            | _ => Crashed
+            end
         | _ =>
           if is_loop_trans t then Crashed else
           let sel := firstn (hi' - lo) (skipn lo b) in
